@@ -2,6 +2,7 @@ package harness
 
 import (
 	"fmt"
+	"time"
 
 	"github.com/LemoFoundationLtd/lemochain-core/chain/consensus"
 	"github.com/LemoFoundationLtd/lemochain-core/chain/types"
@@ -85,7 +86,11 @@ func c01Scenario(c *Ctx) {
 	var chainBlocks []*types.Block
 	parent2 := f2.Blocks[net.GenBlock.Hash()]
 	blocks, restarts, alts := 0, 0, 0
-	chainRun(c, net, g, f, ChainRunOpts{MaxBlocks: 6, MaxTxs: 7, Terms: terms,
+	maxBlocks := 6
+	if terms {
+		maxBlocks = 15
+	}
+	chainRun(c, net, g, f, ChainRunOpts{MaxBlocks: maxBlocks, MaxTxs: 7, Terms: terms,
 		OnBlock: func(r *BlockRec) bool {
 			blk := r.Block
 			blocks++
@@ -198,6 +203,56 @@ func c01Scenario(c *Ctx) {
 			c.State(hashString(fmt.Sprintf("%d/%d/%d/%v/%v", blk.Height(), len(blk.Txs), len(r.Invalid), r.IsReward, r.IsSnap)))
 			return true
 		}})
+	// a node that was not there when the blocks were mined: it syncs the whole chain later,
+	// at another wall-clock time, in one go (confirmations first for half of the blocks) and
+	// must end with the same state ("does not depend on wall-clock time or on what the node
+	// executed before")
+	if !c.Failed() && len(chainBlocks) >= 2 && c.Draw("gen", 2) == 0 {
+		c.W.Sleep(time.Duration(10+c.Draw("gen", 7200)) * time.Second)
+		late := net.AddNode(4, "late", detKey("observer-late"))
+		simrt.SetMapMode(4, simrt.MapShuffled)
+		if late.StartNode() {
+			c.Fault("late_sync_clock_shift")
+			ok := true
+			for _, ob := range chainBlocks {
+				h := ob.Height()
+				T, I := net.P.TermDuration, net.P.InterimDuration
+				if h > T+I && late.BC.StableBlock().Height() < ((h-I-1)/T)*T {
+					c.Probe("late_syncer_unable_term_not_stable")
+					ok = false
+					break
+				}
+				takeErrors(late.Tag)
+				if _, err := late.InsertBlock(wireCopyBlock(ob)); err != nil {
+					why := classifyRejection(takeErrors(late.Tag))
+					c.Fail("C01/rejected-by-late-syncer/"+why, "a node syncing the chain later (clock shifted) rejected honest block %d (%v, reason: %s)", h, err, why)
+					ok = false
+					break
+				}
+				var sigs []types.SignData
+				for k := range net.Deputies {
+					if net.Deputies[k].Miner.Addr != ob.MinerAddress() {
+						sigs = append(sigs, net.Confirm(k, ob.Hash()))
+					}
+				}
+				if len(sigs) > 0 {
+					late.InsertConfirms(h, ob.Hash(), sigs)
+				}
+			}
+			if ok {
+				last := chainBlocks[len(chainBlocks)-1]
+				uni := net.Universe(g, chainBlocks...)
+				keys := g.DumpKeys()
+				var a, b StateDump
+				late.Do("dump", func() { a = DumpState(late.DB, last.Hash(), uni, keys) })
+				c.W.Do(f.Tag, "dump", func() { b = DumpState(f.DB, last.Hash(), uni, keys) })
+				if diff := DiffState(b, a); diff != "" {
+					c.Fail("C01/state/late-syncer-differs", "a node that synced the chain later ends with another state at block %d than the miner: %s", last.Height(), diff)
+				}
+				c.Probe("late_syncer_compared")
+			}
+		}
+	}
 	c.Nontrivial = blocks >= 2
 	c.Sample = map[string]interface{}{"params": fmt.Sprintf("%+v", p), "blocks": blocks, "restarts": restarts, "sibling_forks": alts}
 	_ = common.Hash{}
